@@ -137,6 +137,8 @@ func runPortTotal(p *core.Program, r *core.Report) {
 					construct := core.FnKey(fn) + " send on " + addrDesc(ch) + " excludes " + g.Name()
 					if comparedUnequal(ch, g, ins) {
 						r.OK(rule, construct, p.InsPos(ins), "dominated by the not-equal edge of a comparison of the channel with "+g.Name())
+					} else if callersExclude(p, fn, ch, g) {
+						r.OK(rule, construct, p.InsPos(ins), "an unexported helper: every call site is dominated by the not-equal edge of a comparison of the same port's channel with "+g.Name())
 					} else {
 						r.Bad(rule, construct, p.InsPos(ins), "a value is sent on a port's channel that may be the closed placeholder "+g.Name()+" (an input-only port made the output by `>&0`, or a closed port): sending on a closed channel panics and kills the interpreter")
 					}
@@ -146,6 +148,141 @@ func runPortTotal(p *core.Program, r *core.Report) {
 	}
 	r.Count(rule+" sends on port value channels", nsend)
 	r.Anchor(rule, "a send on a port value channel exists", nsend > 0)
+
+	// (c) a stopped port is never sent on: the blocking select that sends is
+	// reached only through the default branch of a non-blocking receive on
+	// the port's sendStop (with both ready, Go's select picks at random)
+	for _, fn := range p.FnsInPkg(pkgEval) {
+		core.Instrs(fn, func(ins ssa.Instruction) {
+			sel, ok := ins.(*ssa.Select)
+			if !ok || !sel.Blocking {
+				return
+			}
+			sends := false
+			for _, st := range sel.States {
+				if st.Dir == types.SendOnly && isValueChanField(chanOrigin(st.Chan, map[ssa.Value]bool{})) {
+					sends = true
+				}
+			}
+			if !sends {
+				return
+			}
+			construct := core.FnKey(fn) + " checks sendStop before trying to send"
+			if stopCheckedFirst(fn, sel) {
+				r.OK(rule, construct, p.InsPos(ins), "the sending select is reached only through the default branch of a non-blocking receive on sendStop")
+			} else {
+				r.Bad(rule, construct, p.InsPos(ins), "the value is offered to the channel together with the stop signal: when the port is stopped and the channel can take the value (or is closed), select picks at random - a stage that made the reading end of its pipe an output (`... | put x >&0`) panics with 'send on closed channel'")
+			}
+		})
+	}
+	// (d) the reading end of a pipe is a stopped port
+	closedStops := closedAtInit(p)
+	npipe := 0
+	for _, fn := range p.FnsInPkg(pkgEval) {
+		core.Instrs(fn, func(ins ssa.Instruction) {
+			a, ok := ins.(*ssa.Alloc)
+			if !ok || !core.IsNamed(a.Type(), pkgEval, "Port") {
+				return
+			}
+			fs := fieldStores(a)
+			ex, ok := resolveVal(fs["File"]).(*ssa.Extract)
+			if !ok || ex.Index != 0 {
+				return
+			}
+			pc, ok := ex.Tuple.(*ssa.Call)
+			if !ok || pc.Call.StaticCallee() == nil || pc.Call.StaticCallee().String() != "os.Pipe" {
+				return
+			}
+			if _, hasChan := fs["Chan"]; !hasChan {
+				return
+			}
+			npipe++
+			construct := core.FnKey(fn) + " reading end of a pipe does not support value output"
+			stop := fs["sendStop"]
+			okStop := false
+			if stop != nil {
+				if addr, isLd := core.IsLoad(stripConvert(stop)); isLd {
+					if g, isG := addr.(*ssa.Global); isG && closedStops[g] {
+						okStop = true
+					}
+				}
+			}
+			if okStop && fs["sendError"] != nil && !isNilConst(fs["sendError"]) {
+				r.OK(rule, construct, p.InsPos(ins), "sendStop is the channel closed at initialisation and sendError is set")
+			} else {
+				r.Bad(rule, construct, p.InsPos(ins), "the port for the reading end of a pipe accepts value output: the writing stage closes the shared channel when it finishes, so a stage that sends to its own input (`... | put x >&0`) panics with 'send on closed channel'")
+			}
+		})
+	}
+	r.Count(rule+" pipe reading-end port literals", npipe)
+}
+
+// closedAtInit: package-level channels of pkg/eval closed by an init function.
+func closedAtInit(p *core.Program) map[*ssa.Global]bool {
+	out := map[*ssa.Global]bool{}
+	pkg := p.Pkg(pkgEval)
+	if pkg == nil {
+		return out
+	}
+	for name, m := range pkg.Members {
+		f, ok := m.(*ssa.Function)
+		if !ok || !(name == "init" || len(name) > 5 && name[:5] == "init#") {
+			continue
+		}
+		core.Instrs(f, func(ins ssa.Instruction) {
+			c, ok := ins.(*ssa.Call)
+			if !ok {
+				return
+			}
+			if b, ok := c.Call.Value.(*ssa.Builtin); ok && b.Name() == "close" {
+				if addr, ok := core.IsLoad(c.Call.Args[0]); ok {
+					if g, ok := addr.(*ssa.Global); ok {
+						out[g] = true
+					}
+				}
+			}
+		})
+	}
+	return out
+}
+
+// stopCheckedFirst: sel is dominated by the default edge of a non-blocking
+// select that receives from the port's sendStop.
+func stopCheckedFirst(fn *ssa.Function, sel *ssa.Select) bool {
+	for _, b := range fn.Blocks {
+		for _, ins := range b.Instrs {
+			nb, ok := ins.(*ssa.Select)
+			if !ok || nb.Blocking || len(nb.States) != 1 || nb.States[0].Dir != types.RecvOnly {
+				continue
+			}
+			if f := portField(nb.States[0].Chan); len(f) < 9 || f[len(f)-9:] != ".sendStop" {
+				continue
+			}
+			// the If on (extract #0 == 0): its false edge is the default branch
+			for _, ref := range *nb.Referrers() {
+				ex, ok := ref.(*ssa.Extract)
+				if !ok || ex.Index != 0 {
+					continue
+				}
+				for _, r2 := range *ex.Referrers() {
+					cmp, ok := r2.(*ssa.BinOp)
+					if !ok || cmp.Op != token.EQL || !core.IsConstInt(cmp.Y, 0) {
+						continue
+					}
+					for _, r3 := range *cmp.Referrers() {
+						iff, ok := r3.(*ssa.If)
+						if !ok {
+							continue
+						}
+						if core.EdgeTo(iff.Block(), sel.Block()) == 1 {
+							return true
+						}
+					}
+				}
+			}
+		}
+	}
+	return false
 }
 
 // comparedUnequal: ins is dominated by the edge on which ch != *g.
